@@ -42,9 +42,18 @@ func mk(d *Desc, mons func(s *Scenario, w *worker) []Monitor) *Scenario {
 			s.axisOrd[i] = ord
 			ord++
 			for mi := range d.Mappings {
-				for ai := range d.Mappings[mi].Axes {
-					if d.Mappings[mi].Axes[ai].Name == s.Alpha[i].Name && s.axisDesc[i] == nil {
-						s.axisDesc[i] = &d.Mappings[mi].Axes[ai]
+				if s.Alpha[i].Sub == "" {
+					for ai := range d.Mappings[mi].Axes {
+						if d.Mappings[mi].Axes[ai].Name == s.Alpha[i].Name && s.axisDesc[i] == nil {
+							s.axisDesc[i] = &d.Mappings[mi].Axes[ai]
+						}
+					}
+					continue
+				}
+				as := d.Mappings[mi].SubAxes[s.Alpha[i].Sub]
+				for ai := range as {
+					if s.Alpha[i].Sub+":"+as[ai].Name == s.Alpha[i].Name && s.axisDesc[i] == nil {
+						s.axisDesc[i] = &as[ai]
 					}
 				}
 			}
